@@ -317,6 +317,7 @@ func main() {
 	seqx.PinGlobals()
 	zerolog.TimeFieldFormat = time.RFC3339Nano
 	r := seq.New("C17", tier, "fault_enumeration")
+	defer r.CrashGuard()
 	r.Rule = "one evaluation = one byte string decoded through Cbor2JsonManyObjects, DecodeIfBinaryToBytes and ConsoleWriter.Write: (a) every initial byte x boundary argument bytes {00,01,17,18,7f,80,ff} in 13 nesting contexts x 4 suffixes, (b) every prefix (all offsets) of valid streams of 1-3 events from the real encoder, (c) every single-byte substitution / deletion / duplication at every offset of a corpus of valid streams; distinct = distinct (class, error?, output); non-trivial = the decoder produced output or an error"
 	r.Assumptions = []string{"arbitrary 64 KiB inputs are not enumerable: coverage is the bounded-exhaustive neighbourhood of valid streams plus all short headers", "allocation is measured with runtime.MemStats.TotalAlloc (per input for inputs that declare a length, per batch of 256 otherwise, bisected on excess)", "journald needs a socket and syslog is excluded from the binary build by its own build tag: only their shared decode entry point and ConsoleWriter are driven"}
 	if tier == "quick" {
